@@ -296,6 +296,13 @@ fn run_case_protein(f: &std::collections::HashMap<String, String>) -> String {
     out.push(format!("gen={} sse={}", g, s));
     let (g, s) = layout_scores::<Protein, U16>(&pssm, &dm, &seq);
     out.push(format!("g16={} s16={}", g, s));
+    // histories on one reused StripedScores<u8, U32> (Protein: the generic and SSE2 pipelines only)
+    if let Some(h) = f.get("hist") {
+        for (k, hist) in h.split('|').enumerate() {
+            let (steps, fin) = run_history_gs::<Protein, U32>(&rows, &seq, hist);
+            out.push(format!("h{}={} hf{}={}", k, steps, k, fin));
+        }
+    }
     out.join(" ")
 }
 
@@ -437,13 +444,21 @@ fn run_case(f: &std::collections::HashMap<String, String>) -> String {
             out.push(format!("h{}={} hf{}={}", k, steps, k, fin));
         }
     }
+    // ... and on ONE reused StripedScores<u8, U16> (generic / SSE2 pipelines on the 16-column layout)
+    if let Some(h) = f.get("hist16") {
+        let vrows: Vec<Vec<f32>> = rows.iter().map(|r| r.to_vec()).collect();
+        for (k, hist) in h.split('|').enumerate() {
+            let (steps, fin) = run_history_gs::<Dna, U16>(&vrows, &seq, hist);
+            out.push(format!("h16_{}={} hf16_{}={}", k, steps, k, fin));
+        }
+    }
     out.join(" ")
 }
 
 // ------------------------------------------------------------------ histories
 
 /// motif variants of a history step (the driver derives the same ones)
-fn motif_variant(rows: &[[f32; 5]], v: usize) -> Vec<[f32; 5]> {
+fn motif_variant<T: Clone>(rows: &[T], v: usize) -> Vec<T> {
     let m = rows.len();
     match v {
         1 => rows[..(m + 1) / 2].to_vec(),
@@ -468,7 +483,7 @@ fn motif_variant(rows: &[[f32; 5]], v: usize) -> Vec<[f32; 5]> {
 }
 
 /// sequence variants of a history step; `m` is the width of the MAIN motif
-fn seq_variant(seq: &[Nucleotide], m: usize, v: usize) -> Vec<Nucleotide> {
+fn seq_variant<S: Clone>(seq: &[S], m: usize, v: usize) -> Vec<S> {
     let l = seq.len();
     match v {
         1 => seq[..l / 3].to_vec(),
@@ -482,6 +497,108 @@ fn seq_variant(seq: &[Nucleotide], m: usize, v: usize) -> Vec<Nucleotide> {
         4 => seq[..l.saturating_sub(1)].to_vec(),
         _ => seq.to_vec(),
     }
+}
+
+/// `rows:max_index:checksum` for any number of columns
+fn digest_c<C: PositiveLength>(sc: &StripedScores<u8, C>) -> String {
+    let m = sc.matrix();
+    let mut d: u64 = 0;
+    for r in 0..m.rows() {
+        for c in 0..C::USIZE {
+            let idx = (r * C::USIZE + c) as u64;
+            d = (d + (m[r][c] as u64) * ((idx % 251) + 1)) % 1_000_003;
+        }
+    }
+    format!("{}:{}:{}", m.rows(), sc.max_index(), d)
+}
+
+/// A history on one `StripedScores<u8, C>` for ANY alphabet and column count through the pipelines that exist for
+/// all of them: `G` = Pipeline::generic(), `S` = Pipeline::sse2() (both run the trait default); steps as in
+/// `run_history` (`R.rows.max`, `Z.v`, `<G|S>.<motif variant>.<seq variant>.<F|lo:hi>`).
+fn run_history_gs<A, C>(rows: &[Vec<f32>], seq: &[A::Symbol], hist: &str) -> (String, String)
+where
+    A: Alphabet,
+    C: PositiveLength + MultipleOf<U16>,
+{
+    let m = rows.len();
+    let mut buf = StripedScores::<u8, C>::empty();
+    let mut obs: Vec<String> = vec![];
+    let mut cut = false;
+    for step in hist.split(';') {
+        let t: Vec<&str> = step.split('.').collect();
+        if t.len() < 2 {
+            obs.push("BAD".to_string());
+            cut = true;
+            break;
+        }
+        let ok: Option<()> = match t[0] {
+            "R" => {
+                let r: usize = t[1].parse().unwrap();
+                let mx: usize = t[2].parse().unwrap();
+                no_panic(|| buf.resize(r, mx))
+            }
+            "Z" => {
+                let v: u8 = t[1].parse().unwrap();
+                no_panic(|| buf.matrix_mut().fill(v))
+            }
+            be => {
+                let mv: usize = t[1].parse().unwrap();
+                let sv: usize = t[2].parse().unwrap();
+                let vrows = motif_variant(rows, mv);
+                let vseq = seq_variant(seq, m, sv);
+                let pssm = ScoringMatrix::<A>::new(Background::uniform(), DenseMatrix::from_rows(vrows.iter()));
+                let dm = match no_panic(|| pssm.to_discrete()) {
+                    None => {
+                        obs.push("VP".to_string());
+                        cut = true;
+                        break;
+                    }
+                    Some(d) => d,
+                };
+                if be == "S" && Pipeline::<A, Sse2>::sse2().is_err() {
+                    obs.push("U".to_string());
+                    cut = true;
+                    break;
+                }
+                let st: Option<StripedSequence<A, C>> = no_panic(|| {
+                    let mut s: StripedSequence<A, C> = Pipeline::<A, Generic>::generic().stripe(&vseq[..]);
+                    s.configure(&pssm);
+                    s
+                });
+                match st {
+                    None => {
+                        obs.push("SP".to_string());
+                        cut = true;
+                        break;
+                    }
+                    Some(st) => {
+                        let range: Option<(usize, usize)> = if t[3] == "F" {
+                            None
+                        } else {
+                            let ab: Vec<usize> = parse_list(t[3], ':');
+                            Some((ab[0], ab[1]))
+                        };
+                        no_panic(|| match (be, range) {
+                            ("S", None) => Pipeline::<A, Sse2>::sse2().unwrap().score_into(&dm, &st, &mut buf),
+                            ("S", Some((a, b))) => Pipeline::<A, Sse2>::sse2().unwrap().score_rows_into(&dm, &st, a..b, &mut buf),
+                            (_, None) => Pipeline::<A, Generic>::generic().score_into(&dm, &st, &mut buf),
+                            (_, Some((a, b))) => Pipeline::<A, Generic>::generic().score_rows_into(&dm, &st, a..b, &mut buf),
+                        })
+                    }
+                }
+            }
+        };
+        match ok {
+            None => {
+                obs.push("P".to_string());
+                cut = true;
+                break;
+            }
+            Some(()) => obs.push(digest_c::<C>(&buf)),
+        }
+    }
+    let fin = if cut { "P".to_string() } else { show_scores_c::<C>(Some(buf)) };
+    (obs.join(";"), fin)
 }
 
 /// position-weighted checksum of a score matrix, printed for the intermediate steps
@@ -1279,8 +1396,14 @@ fn gen_protein_case(rng: &mut Rng, id: usize, tier: &str) -> String {
     for _ in 0..3 {
         bytes.push(rng.below(256) as u8);
     }
+    let hist = if rng.chance(1, 4) {
+        let nh = 1 + rng_two(rng);
+        format!(" hist={}", gen_hists_for(rng, m, sq.len(), &["G", "S"], 32, nh))
+    } else {
+        String::new()
+    };
     format!(
-        "{} kind={} alpha=P wc={} mat={} seq={} thr={} bytes={} sub=0:0",
+        "{} kind={} alpha=P wc={} mat={} seq={} thr={} bytes={} sub=0:0{}",
         id,
         kind,
         conditioning_a::<Protein>(&rows),
@@ -1288,6 +1411,7 @@ fn gen_protein_case(rng: &mut Rng, id: usize, tier: &str) -> String {
         seq,
         thr.iter().map(|x| bits(*x).to_string()).collect::<Vec<_>>().join(","),
         bytes.iter().map(|x| x.to_string()).collect::<Vec<_>>().join(","),
+        hist,
     )
 }
 
@@ -1337,7 +1461,14 @@ fn gen_case(rng: &mut Rng, id: usize, tier: &str) -> String {
     // histories on one reused score buffer: 30% of the DNA cases
     if rng.chance(3, 10) {
         let l = if seq == "-" { 0 } else { seq.len() };
-        format!("{} hist={}", line, gen_hists(rng, rows.len(), l))
+        let h = gen_hists(rng, rows.len(), l);
+        if rng.chance(1, 3) {
+            let nh = 1 + rng_two(rng);
+            let h16 = gen_hists_for(rng, rows.len(), l, &["G", "S"], 16, nh);
+            format!("{} hist={} hist16={}", line, h, h16)
+        } else {
+            format!("{} hist={}", line, h)
+        }
     } else {
         line
     }
@@ -1366,16 +1497,24 @@ fn variant_len_l(l: usize, m: usize, v: usize) -> usize {
 /// pipelines; shrinking then growing; resize / fill by the caller in between; every history ends with
 /// `score_into` of the main motif on the main sequence, so that the final buffer must satisfy C08.
 fn gen_hists(rng: &mut Rng, m: usize, l: usize) -> String {
+    let nh = 2 + rng_two(rng);
+    gen_hists_for(rng, m, l, &["G", "A", "a", "g", "S", "s"], 32, nh)
+}
+
+fn rng_two(rng: &mut Rng) -> usize {
+    rng.below(2) as usize
+}
+
+/// histories restricted to the pipelines `bes`, for a layout of `cols` columns
+fn gen_hists_for(rng: &mut Rng, m: usize, l: usize, bes: &[&'static str], cols: usize, nh: usize) -> String {
     let mut hists: Vec<String> = vec![];
-    let nh = 2 + rng.below(2) as usize;
     for h in 0..nh {
         // history 0: one pipeline throughout; the others: pipelines mixed on the same buffer
-        let bes = ["G", "A", "a", "g", "S", "s"];
-        let fixed = *rng.pick(&bes);
+        let fixed = *rng.pick(bes);
         let mut steps: Vec<String> = vec![];
         let n = 2 + rng.below(4) as usize;
         for _ in 0..n {
-            let be = if h == 0 { fixed } else { *rng.pick(&bes) };
+            let be = if h == 0 { fixed } else { *rng.pick(bes) };
             match rng.below(12) {
                 0 => {
                     steps.push(format!("R.{}.{}", rng.below(30), rng.below(900)));
@@ -1394,7 +1533,7 @@ fn gen_hists(rng: &mut Rng, m: usize, l: usize) -> String {
             let sv = *rng.pick(&[0usize, 0, 1, 2, 2, 3, 4]);
             let lv = variant_len_l(l, m, sv);
             let mvl = variant_len_m(m, mv);
-            let r = (lv + 31) / 32;
+            let r = (lv + cols - 1) / cols;
             let range = match rng.below(20) {
                 0..=7 => "F".to_string(),
                 8 => format!("{}:{}", r.saturating_sub(1), r),   // the last sequence row only
@@ -1409,7 +1548,7 @@ fn gen_hists(rng: &mut Rng, m: usize, l: usize) -> String {
             };
             steps.push(format!("{}.{}.{}.{}", be, mv, sv, range));
         }
-        let be = if h == 0 { fixed } else { *rng.pick(&bes) };
+        let be = if h == 0 { fixed } else { *rng.pick(bes) };
         steps.push(format!("{}.0.0.F", be));
         hists.push(steps.join(";"));
     }
@@ -1541,8 +1680,14 @@ fn main() {
         }
         "corpus3" => {
             silence_panics();
+            // every case with histories also gets two on the 16-column layout (generic / SSE2 pipelines)
+            let h16 = "G.0.0.F;S.1.2.F;Z.255;G.0.4.F;S.0.0.F|S.3.2.F;G.0.1.0:1;R.7.5;Z.255;G.0.0.F";
             for l in corpus3_cases() {
-                println!("{}", l);
+                if l.contains(" hist=") {
+                    println!("{} hist16={}", l, h16);
+                } else {
+                    println!("{}", l);
+                }
             }
         }
         "run" => {
